@@ -241,6 +241,28 @@ template <int NOUT, int NIN> std::string st_stack_nested(std::size_t &state, c19
     return err;
 }
 
+// Boundary: the caller offers a buffer of EXACTLY the frame size (the shared size word preset by the user). The frame plus its flag byte
+// does not fit, so the heap fallback must be used and not a single byte behind the offered buffer may be touched.
+template <int N> std::string st_stack_exact(c19_ctx &C, int id) {
+    std::size_t learn = 0; bool h = false;
+    if (st_stack_call<N>(learn, C, id, h) != id) return "wrong value";
+    if (learn < 2) return ""; // nothing learned (should not happen)
+    std::size_t state = learn - 1;   // == frame size
+    alignas(16) unsigned char buf[2048];
+    if (state + 16 > sizeof buf) return "";
+    memset(buf, 0xA5, sizeof buf);
+    monitored<cocls::stack_storage> storage(state);
+    std::size_t given = storage;
+    storage = (void *)buf;
+    long n0 = g_heap_news.load();
+    int v;
+    { cocls::future<int> f = st_body<monitored<cocls::stack_storage>, N>(storage, C, id + 1, nullptr).start(); v = f.wait(); }
+    bool used_heap = g_heap_news.load() != n0;
+    for (std::size_t k = given; k < given + 16; k++) if (buf[k] != 0xA5) return "byte +" + std::to_string(k - given) + " behind the offered stack buffer of " + std::to_string(given) + " bytes (== frame size) was overwritten";
+    if (v != id + 1) return "wrong value";
+    if (!used_heap) return "a frame of " + std::to_string(given) + " bytes plus its flag byte was placed into a buffer of " + std::to_string(given) + " bytes";
+    return "";
+}
 inline cocls::async<int> st_warm_tls() { co_return 1; }
 inline void storage_sequences(const vf::opts &o, vf::report &R, uint64_t seqs) {
     vf::rng master(vf::mix(o.seed, 0x19));
@@ -306,6 +328,10 @@ inline void storage_sequences(const vf::opts &o, vf::report &R, uint64_t seqs) {
                 default: res.err = st_stack_nested<29, 29>(st2, C, 500); break;
                 }
                 res.desc += "nested ";
+            }
+            if (res.err.empty()) {
+                switch (r.below(3)) { case 0: res.err = st_stack_exact<2>(C, 700); break; case 1: res.err = st_stack_exact<5>(C, 700); break; default: res.err = st_stack_exact<24>(C, 700); break; }
+                res.desc += "exact-size-buffer ";
             }
             if (res.err.empty() && C.canary_bad.load()) res.err = "frame contents overwritten";
             if (res.err.empty() && g_frame_allocs.load() - fa0 != g_frame_deallocs.load() - fd0) res.err = "frames allocated != released";
